@@ -862,6 +862,19 @@ fn encode_utf8(args: Vec<Rc<Object>>) -> Result<Rc<Object>, String> {
     }
 }
 
+/// Write text to stdout or stderr. A failure becomes an error object
+/// instead of the panic that the print macros raise.
+/// # Arguments
+/// * `stream` - stdout or stderr
+/// * `text` - The text to write
+/// * `count` - The number to return on success
+fn write_text<W: Write>(stream: &mut W, text: &str, count: usize) -> Result<Rc<Object>, String> {
+    match stream.write_all(text.as_bytes()) {
+        Ok(_) => Ok(Rc::new(Object::Integer(count as i64))),
+        Err(e) => Ok(Rc::new(Object::Err(ErrorObj::IO(e)))),
+    }
+}
+
 /// Writes a byte or an array of bytes to a file handle
 /// # Arguments
 /// * `args` - A vector of Rc<Object> containing the file handle and a byte or an
@@ -925,23 +938,21 @@ fn builtin_write(args: Vec<Rc<Object>>) -> Result<Rc<Object>, String> {
                 FileHandle::Stdin => Err("cannot write to stdin".to_string()),
                 FileHandle::Stdout => match args[1].as_ref() {
                     Object::Byte(b) => {
-                        print!("{}", *b as char);
-                        Ok(Rc::new(Object::Integer(1)))
+                        let text = (*b as char).to_string();
+                        write_text(&mut io::stdout(), &text, 1)
                     }
                     Object::Arr(arr) => {
+                        let mut text = String::new();
                         for obj in arr.elements.borrow().iter() {
                             if let Object::Byte(b) = obj.as_ref() {
-                                print!("{}", *b as char);
+                                text.push(*b as char);
                             } else {
                                 return Err(String::from("array should contain only bytes"));
                             }
                         }
-                        Ok(Rc::new(Object::Integer(arr.elements.borrow().len() as i64)))
+                        write_text(&mut io::stdout(), &text, arr.elements.borrow().len())
                     }
-                    Object::Str(s) => {
-                        print!("{}", s);
-                        Ok(Rc::new(Object::Integer(s.len() as i64)))
-                    }
+                    Object::Str(s) => write_text(&mut io::stdout(), s, s.len()),
                     Object::Packet(s) => {
                         let bytes: Vec<u8> = s.as_ref().into();
                         match io::stdout().write_all(&bytes) {
@@ -955,23 +966,21 @@ fn builtin_write(args: Vec<Rc<Object>>) -> Result<Rc<Object>, String> {
                 },
                 FileHandle::Stderr => match args[1].as_ref() {
                     Object::Byte(b) => {
-                        eprint!("{}", *b as char);
-                        Ok(Rc::new(Object::Integer(1)))
+                        let text = (*b as char).to_string();
+                        write_text(&mut io::stderr(), &text, 1)
                     }
                     Object::Arr(arr) => {
+                        let mut text = String::new();
                         for obj in arr.elements.borrow().iter() {
                             if let Object::Byte(b) = obj.as_ref() {
-                                eprint!("{}", *b as char);
+                                text.push(*b as char);
                             } else {
                                 return Err(String::from("array should contain only bytes"));
                             }
                         }
-                        Ok(Rc::new(Object::Integer(arr.elements.borrow().len() as i64)))
+                        write_text(&mut io::stderr(), &text, arr.elements.borrow().len())
                     }
-                    Object::Str(s) => {
-                        eprint!("{}", s);
-                        Ok(Rc::new(Object::Integer(s.len() as i64)))
-                    }
+                    Object::Str(s) => write_text(&mut io::stderr(), s, s.len()),
                     Object::Packet(s) => {
                         let bytes: Vec<u8> = s.as_ref().into();
                         match io::stderr().write_all(&bytes) {
